@@ -9,6 +9,13 @@ hook_commits = [l.split()[0] for l in HOOK_COMMITS if "verif" in l.lower() and n
 
 # id -> (engine, technique, level text, level note, design ref)
 CHECKS = {
+    "C01": (
+        "E2",
+        "bounded-exhaustive enumeration of the C02 program space plus all composite constant exponents; for every accepted program the run-time dimension of every produced quantity is compared with the static type (both read from the implementation)",
+        "All programs of the C02 space (112k quick) plus base^X for every constant exponent expression X of depth <= 2 over {2,3,-1,0.5,0.1,0.2,0.3,1/3} (as result, bound global, generic function body and list element) and struct/list shapes are run; for every program the checker accepts, every quantity produced (result, raw value of the bound global through the hook, list elements) must carry a unit whose dimension equals the inferred type, and run-time failures must be of the documented value-dependent kinds (never IncompatibleUnits, registry errors or panics).",
+        "Trusted: the base-unit -> base-dimension map read from the unit registry; zero-valued quantities are treated as dimension-polymorphic (numbat's documented polymorphic zero, pinned by the suite); polymorphic static types are only checked for error kinds.",
+        "§4 C01",
+    ),
     "C02": (
         "E2",
         "bounded-exhaustive enumeration of dimension-typed programs without a well-typedness filter (every mis-dimensioned variant included) against an independent dimensional-analysis reference; rejected programs embedded at every position of a multi-statement input",
